@@ -4,7 +4,7 @@ import PdModel.Proto
 
 `output run <depth> <nosidebar 0|1> <roots natlist> <all natlist> <obj> <obj> …`
 
-obj = `kind|name|parent|privacy|contents|hasdoc|docsource|xrefs|annrefs|bases|basenames|mro|subclasses|sigrefs|ctors`
+obj = `kind|name|parent|privacy|contents|hasdoc|docsource|xrefs|annrefs|bases|basenames|mro|subclasses|sigrefs|ctors|docctx|module`
   kind ∈ P M C F A; name `u:…`; parent / docsource `-` or a number; privacy ∈ H R U;
   lists `-` or comma separated; bases / sigrefs items `x` (None) or a number; basenames items `u:…`.
 
@@ -30,7 +30,7 @@ def parseNames (t : String) : Option (List Name) :=
 
 def parseObj (tok : String) : Option Obj :=
   match tok.splitOn "|" with
-  | [k, nm, par, pr, cont, hd, ds, xr, an, bs, bn, mro, sub, sg, ct] => do
+  | [k, nm, par, pr, cont, hd, ds, xr, an, bs, bn, mro, sub, sg, ct, dc, md] => do
     let k ← parseKind k
     let nm ← Proto.decodeStr nm
     let par ← parseOptNat par
@@ -45,9 +45,11 @@ def parseObj (tok : String) : Option Obj :=
     let sub ← Proto.natList sub
     let sg ← parseOptList sg
     let ct ← Proto.natList ct
+    let dc ← parseOptNat dc
+    let md ← parseOptNat md
     some { name := nm, kind := k, parent := par, privacy := pr, contents := cont, hasDoc := hd == "1",
            docSource := ds, xrefs := xr, annrefs := an, bases := bs, baseNames := bn, mro := mro,
-           subclasses := sub, sigrefs := sg, ctors := ct }
+           subclasses := sub, sigrefs := sg, ctors := ct, docCtx := dc, modul := md }
   | _ => none
 
 def optIds : List (Option Nat) → List Nat := fun l => l.filterMap id
@@ -57,7 +59,8 @@ def idsInRange (s : Sys) : Bool :=
   let ok := fun (i : Nat) => decide (i < s.n)
   s.roots.all ok && s.all.all ok && s.objs.all fun o =>
     (match o.parent with | none => true | some p => ok p) && o.contents.all ok
-    && (match o.docSource with | none => true | some p => ok p) && o.xrefs.all ok && o.annrefs.all ok
+    && (match o.docSource with | none => true | some p => ok p) && (match o.docCtx with | none => true | some p => ok p)
+    && (match o.modul with | none => true | some p => ok p) && o.xrefs.all ok && o.annrefs.all ok
     && (optIds o.bases).all ok && o.mro.all ok && o.subclasses.all ok && (optIds o.sigrefs).all ok && o.ctors.all ok
 
 def showSPage : SPage → String
